@@ -103,14 +103,18 @@ def gen(ctx, rng):
                       dict(xx=[x2], ws=ws, nd=nd2, dtype="int16", exhaustive=False)))
     # accessor cubes
     acc = []
-    for k in range(12 if ctx.thorough else 5):
+    for k in range(14 if ctx.thorough else 7):
         L = int(rng.integers(3, 12))
         ws = int(rng.integers(1, L + 1))
-        cube = rng.integers(-20, 20, size=(2, 3, L))
-        cube = np.where(cube == ND, 0, cube)
-        cube = np.where(rng.random(cube.shape) < 0.35, ND, cube)
-        cube[0, 0, :] = ND
-        acc.append(dict(xx=cube.tolist(), ws=ws, nd=ND, dtype=["int16", "int64", "float32"][k % 3], attr=bool(k % 2)))
+        dtype = ["int16", "int64", "float32", "int32", "int64", "int32", "int16"][k % 7]
+        nd = ND
+        if k % 7 in (3, 4, 5):                         # wide integer cubes with sentinels that binary32 cannot represent
+            nd = [2147483647, 2 ** 40 + 1, -99999999][k % 7 - 3]
+        cube = rng.integers(-20, 20, size=(2, 3, L)).astype("int64")
+        cube = np.where(cube == nd, 0, cube)
+        cube = np.where(rng.random(cube.shape) < 0.35, nd, cube)
+        cube[0, 0, :] = nd
+        acc.append(dict(xx=cube.tolist(), ws=ws, nd=nd, dtype=dtype, attr=bool(k % 2)))
     # mean_grp: exhaustive small scope + random
     mean = []
     exh_m = 5 if ctx.thorough else 4
